@@ -65,6 +65,17 @@ def programs(tier):
             add(f"json-string-multiline:{name}", [Let("s", Str(bytes([97, b, 98, 10, 99]), multiline=True)), Let("v", pval(1, Var("s"), True), ty=P)] + both("v", "P"), expect="accept")
     add("json-string:newline-only", [Let("s", Str(b"l1\nl2", multiline=True)), Let("v", Ctor(C, "B", Var("s"), Bool(True)), ty=C)] + both("v", "C"), expect="accept")
     add("json-string:mix", [Let("s", Str(b'"\\\n\t/ \xc3\xa9"')), Let("v", pval(1, Var("s"), True), ty=P)] + both("v", "P"), expect="accept")
+    # characters outside ASCII: two-, three- and four-byte UTF-8 (JSON carries them verbatim; a \u escape of a rune up to U+FFFF would
+    # decode to the same string, a \U escape is not JSON)
+    for name, txt in (("latin", "caf\u00e9"), ("cjk", "\u4e16\u754c"), ("emoji", "hi \U0001f600"), ("mixed", "\u00e9\u4e16\U0001f600!")):
+        add(f"json-string:non-ascii-{name}", [Let("s", Str(txt.encode("utf-8"))), Let("v", pval(1, Var("s"), True), ty=P)] + both("v", "P"), expect="accept")
+    # stacked derive attributes: #[derive(ToString)] and #[derive(ToJson)] on separate lines mean the same as one combined attribute
+    def stacked(p):
+        p.struct("St", [("a", INT32), ("s", STRING)], derives=["ToString"])
+        p.structs[-1] = p.structs[-1][:3] + (["ToString", "|", "ToJson"],)
+        p.enum("Se", [("K0", []), ("K1", [TAdt("St")])], derives=["ToJson", "|", "ToString"])
+    add("stacked-derive-attributes", [Let("v", Struct(TAdt("St"), [("a", Int(3)), ("s", Str("x"))]), ty=TAdt("St"))] + both("v", "St")
+        + [Let("w", Ctor(TAdt("Se"), "K1", Var("v")), ty=TAdt("Se"))] + both("w", "Se"), expect="accept", extra_decl=stacked)
     # floats
     def fdecl(p):
         p.struct("Fl", [("f", F64), ("g", F32)], derives=BOTH)
